@@ -203,15 +203,29 @@ def walk(tree):
         yield arr, tuple(chip), outs
 
 
-def build_tree(t, RoutingTree, Routes):
+_SUBCLASS = {}
+
+
+def build_tree(t, RoutingTree, Routes, mixed=0):
+    """mixed: 0 = plain RoutingTree nodes; otherwise some nodes (chosen by
+    the chip's coordinates) are instances of an application's own subclass
+    of RoutingTree (annotated hops grafted onto the router's trees) - every
+    node is a RoutingTree all the same"""
     chip, kids = t
-    node = RoutingTree(tuple(chip))
+    cls = RoutingTree
+    if mixed and (chip[0] * 7 + chip[1] * 3 + mixed) % 3 == 0:
+        cls = _SUBCLASS.get(RoutingTree)
+        if cls is None:
+            cls = _SUBCLASS[RoutingTree] = type(
+                "AnnotatedHop", (RoutingTree,), {"note": "user subclass"})
+    node = cls(tuple(chip))
     for r, c in kids:
         rr = None if r is None else Routes(r)
         if c[0] == "L":
             node.children.append((rr, c[1]))
         else:
-            node.children.append((rr, build_tree(c, RoutingTree, Routes)))
+            node.children.append((rr, build_tree(c, RoutingTree, Routes,
+                                                 mixed)))
     return node
 
 
@@ -226,7 +240,10 @@ def run_forest(case, ctx):
     routes = collections.OrderedDict()
     for name, key, mask, t in case["trees"]:
         net = Net(name, [name])
-        routes[net] = build_tree(t, tree_mod.RoutingTree, Routes)
+        mixed = (key + len(case["trees"])) % 3     # 0: plain nodes only
+        if mixed:
+            ctx.hit("tree_with_subclass_nodes")
+        routes[net] = build_tree(t, tree_mod.RoutingTree, Routes, mixed)
         net_keys[net] = (key, mask)
     # expectation
     want = {}
